@@ -156,6 +156,8 @@ def record_run(conf: dict, n_total=32, seed=0, label="", posterior_flags=None, s
         sampler, c = build_sampler(conf, rec, out_dir=out_dir)
         rec.attach(sampler)
     rec.requested_n_total = int(n_total)
+    if label:
+        rec.label = label
     with psrun.hooks_on(rec):
         try:
             sampler.run(n_total=n_total, progress=False, save_every=save_every, resume_state_path=resume)
